@@ -36,11 +36,16 @@ def plan(tier):
     if tier == "quick":
         names = ["dynamic", "dovar", "default", "csum-deep", "csum-two-b", "csum-toggle", "csum-fan", "fan3", "diamond", "ifcreate", "always"]
         K = ["dynamic", "chain"]
-        return [(W[n], alphabet, 3, 2) for n in names if n not in K] + [(W[n], alphabet_k, 3, 2) for n in K]
+        from .c17 import alphabet_u, world_u
+        # hand edits of generated files: the dependents react once to each edit, not for ever
+        return [(W[n], alphabet, 3, 2) for n in names if n not in K] + [(W[n], alphabet_k, 3, 2) for n in K] + \
+            [(world_u(), alphabet_u, 2, 2)]
     p = [(W[n], alphabet_k if n in ("chain", "csum-mid", "dynamic", "chain-append", "diamond", "csum-deep", "dovar", "default") else alphabet,
           5 if n in ("dynamic", "ifcreate", "csum-mid", "chain", "csum-two", "csum-two-b") else 4) for n in W]
     G = worlds.generated()
     p += [(G[k], alphabet, 3) for k in sorted(G)]
+    from .c17 import alphabet_u, world_u
+    p.append((world_u(), alphabet_u, 4, 3))
     return p
 
 
@@ -62,6 +67,8 @@ def replay(path):
     doc = json.load(open(path))
     W = dict(worlds.curated())
     W.update(worlds.generated())
+    from .c17 import world_u
+    W["chain-u"] = world_u()
     bindir = common.build_subject()
     key, viols, summ = replay_history(W[doc["world"]], doc["history"], step_check, bindir=bindir)
     common.cleanup_scratch()
